@@ -273,7 +273,8 @@ def jobs(tier):
     ml = 3 if tier == "quick" else 4
     t = 300 if tier == "quick" else 1800
     J = [Job("H1_enc", "h1_enc", {"maxlen": 3 if tier == "quick" else 4}, t, "H1_enc")]
-    for k in range(4):
-        J.append(Job("H2_xml:%d" % k, "h2_xml", {"maxlen": ml, "part": [k, 4, 7]}, t, "H2_xml"))
-        J.append(Job("H3_text:%d" % k, "h3_text", {"maxlen": ml, "part": [k, 4, 7]}, t, "H3_text"))
+    for k in range(8):
+        J.append(Job("H2_xml:%d" % k, "h2_xml", {"maxlen": ml, "part": [k, 8, 9]}, t, "H2_xml"))
+    for k in range(7):
+        J.append(Job("H3_text:%d" % k, "h3_text", {"maxlen": ml, "part": [k, 7, 9]}, t, "H3_text"))
     return J
